@@ -253,7 +253,10 @@ def main(argv=None):
             # own id (RELABEL = {"C15/": "C25/wire:"}): a change that breaks the borrowed contract is reported by both checks
             for src_pfx, dst_pfx in getattr(mod, "RELABEL", {}).items():
                 if r["id"].startswith(src_pfx):
-                    r = dict(r, id=dst_pfx + r["id"][len(src_pfx):])
+                    # RELABEL_ONLY = {"C10/": <regex>}: borrow only the obligations of that property the claim rests on
+                    flt = getattr(mod, "RELABEL_ONLY", {}).get(src_pfx)
+                    if flt is None or re.search(flt, r["id"]):
+                        r = dict(r, id=dst_pfx + r["id"][len(src_pfx):])
                     break
             if not re.match(r"C\d\d/", r["id"]):
                 errors.append((res["task"], f"obligation without property prefix: {r['id']}"))
